@@ -1,5 +1,16 @@
-"""Sanitizer / interpreter / process-matrix legs and replay (DESIGN §2.4)."""
-import json, os, subprocess
+"""Sanitizer / interpreter / process-matrix legs and replay (DESIGN §2.4).
+
+Every leg returns a report dict: {"leg", "evaluations", "distinct_nontrivial", "violations": [...],
+"problems": [...], "samples": [...], ...}. A leg that cannot run (tool missing, build failure, watchdog)
+reports a problem of kind "leg-unavailable"/"leg-timeout" — that makes the run inconclusive, never a
+violation and never a silent pass.
+"""
+import json, os, subprocess, time, hashlib, re
+
+HARNESS = "/verif/harness"
+BUILD = "/verif/.build"
+CFG = "--cfg georust_geo_verif"
+TARGET = "x86_64-unknown-linux-gnu"
 
 
 def replay(pid, path, gvh):
@@ -11,4 +22,176 @@ def run_leg(leg, pid, tier, seed, rundir, gvh, root):
     fn = globals().get("leg_" + leg["kind"])
     if fn is None:
         return {"leg": leg, "problems": [{"shard": -1, "kind": "leg-unavailable", "detail": f"unknown leg {leg['kind']}"}]}
-    return fn(leg, pid, tier, seed, rundir, gvh, root)
+    t = time.time()
+    try:
+        rep = fn(leg, pid, tier, seed, rundir, gvh, root)
+    except subprocess.TimeoutExpired as e:
+        rep = {"problems": [{"shard": -1, "kind": "leg-timeout", "detail": f"{leg['kind']}: {e}"}]}
+    rep["leg"] = leg["kind"]
+    rep["wall_s"] = round(time.time() - t, 1)
+    return rep
+
+
+def _env(extra=None, rustflags=""):
+    e = dict(os.environ, CARGO_NET_OFFLINE="true", CARGO_TERM_COLOR="never", RUSTFLAGS=(CFG + " " + rustflags).strip())
+    if extra:
+        e.update(extra)
+    return e
+
+
+def _unavailable(what, detail):
+    return {"problems": [{"shard": -1, "kind": "leg-unavailable", "detail": f"{what}: {detail[-1500:]}"}]}
+
+
+# --------------------------------------------------------------------------- C20: process x thread-count matrix
+def leg_procmatrix(leg, pid, tier, seed, rundir, gvh, root):
+    threads = leg.get("threads", [1, 2, 3, 7, 16])
+    seeds = [seed * 101 + i for i in range(leg.get("seeds", 2))]
+    scale = leg.get("scale", 1)
+    logs, violations, lines_total, names = {}, [], 0, set()
+    for s in seeds:
+        per = {}
+        procs = []
+        for t in threads + ["default"]:
+            env = dict(os.environ)
+            if t != "default":
+                env["RAYON_NUM_THREADS"] = str(t)
+            procs.append((t, subprocess.Popen([gvh, "digest-run", "--seed", str(s), "--scale", str(scale), "--repeat", "2"], stdout=subprocess.PIPE, stderr=subprocess.PIPE, env=env, text=True)))
+        for t, p in procs:
+            out, err = p.communicate(timeout=leg.get("timeout", 1800))
+            if p.returncode != 0:
+                return {"problems": [{"shard": -1, "kind": "exit" if p.returncode > 0 else "signal", "code": p.returncode, "detail": f"digest-run threads={t} seed={s}: {err[-800:]}"}]}
+            per[t] = [l for l in out.splitlines() if l and not l.startswith("#")]
+            lines_total += len(per[t])
+        ref_t = threads[0]
+        ref = per[ref_t]
+        for t, lines in per.items():
+            if len(lines) != len(ref):
+                violations.append({"property": pid, "check": "process_matrix.length", "sig": "process_matrix.length|digest-run|-", "expected": len(ref), "got": len(lines), "ops_seed": s, "threads": t})
+                continue
+            for a, b in zip(ref, lines):
+                names.add(a.split()[0])
+                if a != b:
+                    base = a.split()[0].split(".")[0]
+                    violations.append({"property": pid, "check": "process_matrix.digest", "sig": f"process_matrix.digest|{base}|-", "op": a.split()[0], "expected": f"{a} (RAYON_NUM_THREADS={ref_t})", "got": f"{b} (RAYON_NUM_THREADS={t})", "ops_seed": s, "scale": scale, "replay_cmd": f"{gvh} digest-run --seed {s} --scale {scale}"})
+        # two consecutive lines of one process are the two in-process repeats
+        for t, lines in per.items():
+            for i in range(0, len(lines) - 1, 2):
+                if lines[i] != lines[i + 1]:
+                    base = lines[i].split()[0].split(".")[0]
+                    violations.append({"property": pid, "check": "process_matrix.repeat", "sig": f"process_matrix.repeat|{base}|-", "op": lines[i].split()[0], "expected": lines[i], "got": lines[i + 1], "ops_seed": s, "scale": scale, "threads": t})
+        logs[s] = {str(t): hashlib.sha1("\n".join(l).encode()).hexdigest()[:12] for t, l in per.items()}
+    # keep one example per signature
+    seen, keep = set(), []
+    for v in violations:
+        if v["sig"] not in seen:
+            seen.add(v["sig"])
+            keep.append(v)
+    return {"evaluations": lines_total, "distinct_nontrivial": len(names) * len(seeds), "violations": keep, "n_violations": len(violations),
+            "processes": len(seeds) * (len(threads) + 1), "threads_tried": threads + ["default"], "log_digests": logs, "scale": scale,
+            "samples": [{"kind": "process matrix", "seeds": seeds, "threads": threads, "ops_per_process": len(names)}]}
+
+
+# --------------------------------------------------------------------------- sanitizer builds
+def _build(profile_dir, rustflags, extra_args, timeout=1800):
+    tdir = os.path.join(BUILD, profile_dir)
+    cmd = ["cargo", "+nightly", "build", "--release", "--offline", "--target", TARGET, "--target-dir", tdir] + extra_args
+    p = subprocess.run(cmd, cwd=HARNESS, env=_env(rustflags=rustflags), stdout=subprocess.PIPE, stderr=subprocess.STDOUT, text=True, timeout=timeout)
+    exe = os.path.join(tdir, TARGET, "release", "gvh")
+    if p.returncode != 0 or not os.path.exists(exe):
+        return None, p.stdout
+    return exe, ""
+
+
+def leg_tsan(leg, pid, tier, seed, rundir, gvh, root):
+    exe, err = _build("tsan", "-Zsanitizer=thread", ["-Zbuild-std"])
+    if not exe:
+        return _unavailable("tsan build", err)
+    violations, evals, reports = [], 0, 0
+    for t in leg.get("threads", [16, 3]):
+        env = dict(os.environ, RAYON_NUM_THREADS=str(t), TSAN_OPTIONS="halt_on_error=0 exitcode=66 report_signal_unsafe=0")
+        p = subprocess.run([exe, "digest-run", "--seed", str(seed), "--scale", str(leg.get("scale", 2))], stdout=subprocess.PIPE, stderr=subprocess.PIPE, env=env, text=True, timeout=leg.get("timeout", 3600))
+        evals += len([l for l in p.stdout.splitlines() if l and not l.startswith("#")])
+        n = p.stderr.count("WARNING: ThreadSanitizer")
+        reports += n
+        if n or p.returncode == 66:
+            first = p.stderr[p.stderr.find("WARNING: ThreadSanitizer"):][:3000]
+            m = re.search(r"#\d+ (\S*geo\S*)", first)
+            violations.append({"property": pid, "check": "tsan.report", "sig": f"tsan.data_race|{m.group(1) if m else 'unknown'}|-", "expected": "no ThreadSanitizer report", "got": first, "threads": t})
+        elif p.returncode != 0:
+            return {"problems": [{"shard": -1, "kind": "exit", "code": p.returncode, "detail": p.stderr[-800:]}]}
+    return {"evaluations": evals, "violations": violations, "tsan_reports": reports, "threads_tried": leg.get("threads", [16, 3]), "samples": [{"kind": "tsan digest-run", "scale": leg.get("scale", 2)}]}
+
+
+def leg_asan(leg, pid, tier, seed, rundir, gvh, root):
+    exe, err = _build("asan", "-Zsanitizer=address -Cforce-frame-pointers=yes", [])
+    if not exe:
+        return _unavailable("asan build", err)
+    violations, evals = [], 0
+    n = leg.get("shards", 4)
+    procs = []
+    for i in range(n):
+        out = os.path.join(rundir, f"asan_{i}.json")
+        env = dict(os.environ, ASAN_OPTIONS="halt_on_error=1 abort_on_error=0 detect_leaks=0 exitcode=77")
+        procs.append((i, out, subprocess.Popen([exe, "run", pid, "--seed", str(seed + 7), "--shard", str(i), "--nshards", str(n), "--tier", "quick", "--budget", str(leg["budget"]), "--out", out], stdout=subprocess.PIPE, stderr=subprocess.PIPE, env=env, text=True, cwd=rundir)))
+    for i, out, p in procs:
+        so, se = p.communicate(timeout=leg.get("timeout", 3600))
+        if "ERROR: AddressSanitizer" in se or p.returncode == 77:
+            first = se[se.find("ERROR: AddressSanitizer"):][:3000]
+            m = re.search(r"#\d+ \S+ in (\S*geo\S*)", first)
+            violations.append({"property": pid, "check": "asan.report", "sig": f"asan.report|{m.group(1) if m else 'unknown'}|-", "expected": "no AddressSanitizer report", "got": first, "shard": i})
+            continue
+        if p.returncode != 0 or not os.path.exists(out):
+            return {"problems": [{"shard": i, "kind": "exit", "code": p.returncode, "detail": se[-800:]}]}
+        d = json.load(open(out))
+        evals += d["evaluations"]
+        # the oracle watches the same executions: its verdicts count too
+        for v in d["violations"]:
+            v["sig"] = v["sig"]
+            violations.append(v)
+    return {"evaluations": evals, "violations": violations, "asan_shards": n, "samples": [{"kind": "asan run", "budget_per_shard": leg["budget"]}]}
+
+
+def leg_memcheck(leg, pid, tier, seed, rundir, gvh, root):
+    if subprocess.run(["which", "valgrind"], stdout=subprocess.PIPE).returncode != 0:
+        return _unavailable("valgrind", "not installed")
+    cmd = ["valgrind", "--error-exitcode=99", "--undef-value-errors=yes", "--quiet", gvh] + leg["args"] + ["--seed", str(seed)]
+    p = subprocess.run(cmd, stdout=subprocess.PIPE, stderr=subprocess.PIPE, text=True, timeout=leg.get("timeout", 3600), env=dict(os.environ, RAYON_NUM_THREADS=str(leg.get("threads", 3))))
+    evals = len([l for l in p.stdout.splitlines() if l and not l.startswith("#")])
+    if p.returncode == 99 or "uninitialised" in p.stderr:
+        return {"evaluations": evals, "violations": [{"property": pid, "check": "memcheck.report", "sig": "memcheck.report|valgrind|-", "expected": "no memcheck error", "got": p.stderr[:3000]}]}
+    if p.returncode != 0:
+        return {"problems": [{"shard": -1, "kind": "exit", "code": p.returncode, "detail": p.stderr[-800:]}]}
+    return {"evaluations": evals, "violations": [], "samples": [{"kind": "memcheck", "cmd": " ".join(cmd[5:])}]}
+
+
+def leg_miri(leg, pid, tier, seed, rundir, gvh, root):
+    """cargo +nightly miri run on a toy workload; parameters via argv, many interleaving seeds for pools."""
+    flags = "-Zmiri-disable-isolation " + leg.get("miriflags", "")
+    seeds = leg.get("many_seeds")
+    if seeds:
+        flags += f" -Zmiri-many-seeds=0..{seeds}"
+    env = _env({"MIRIFLAGS": flags.strip(), "RAYON_NUM_THREADS": str(leg.get("threads", 1))})
+    out = os.path.join(rundir, "miri_out.json")
+    args = [a.replace("{out}", out).replace("{seed}", str(seed)) for a in leg["args"]]
+    cmd = ["cargo", "+nightly", "miri", "run", "--offline", "--target-dir", os.path.join(BUILD, "miri"), "--"] + args
+    p = subprocess.run(cmd, cwd=HARNESS, env=env, stdout=subprocess.PIPE, stderr=subprocess.PIPE, text=True, timeout=leg.get("timeout", 5400))
+    err = p.stderr
+    ub = re.search(r"error: Undefined Behavior[^\n]*|error: .*data race[^\n]*|error: unsupported operation[^\n]*", err)
+    if ub and "unsupported operation" in ub.group(0):
+        return _unavailable("miri", ub.group(0) + err[-600:])
+    if ub:
+        frame = re.search(r"(geo[-\w]*/src/[\w/]+\.rs:\d+)", err[err.find(ub.group(0)):])
+        return {"evaluations": 1, "violations": [{"property": pid, "check": "miri.report", "sig": f"miri.ub|{frame.group(1).split(':')[0] if frame else 'unknown'}|-", "expected": "no undefined behaviour / data race", "got": err[err.find(ub.group(0)):][:3000]}]}
+    if p.returncode != 0:
+        return {"problems": [{"shard": -1, "kind": "leg-unavailable", "detail": "miri run failed: " + err[-1200:]}]}
+    evals = len([l for l in p.stdout.splitlines() if l and not l.startswith("#")])
+    rep = {"evaluations": evals, "violations": [], "miri_seeds": seeds or 1, "samples": [{"kind": "miri", "args": args, "flags": flags}]}
+    if os.path.exists(out):
+        try:
+            d = json.load(open(out))
+            rep["evaluations"] = d["evaluations"]
+            rep["violations"] = d["violations"]
+        except Exception:
+            pass
+    return rep
